@@ -6,15 +6,24 @@ _spec = importlib.util.spec_from_file_location('unit_C16_for_C17', os.path.join(
 _c16 = importlib.util.module_from_spec(_spec); _spec.loader.exec_module(_c16)
 
 TUS = {k: _c16.TUS[k] for k in ('tt', 'st', 'nst')}
+TUS['at'] = dict(src='#include "/repo/src/Bpp/App/ApplicationTools.cpp"\n', filter='bpp::ApplicationTools', flags=['-I/repo/src/Bpp/App', '-I/repo/src'])
 CFG = dict(_c16.CFG)
+CFG['rename'] = dict(CFG['rename']); CFG['defaults'] = dict(CFG['defaults'])
+_S = 'std::basic_string<char>'
+CFG['rename'].update({(_S, 'find', 2, 'args:Str,default'): 'Str__find', (_S, 'rfind', 2, 'args:Str,default'): 'Str__rfind',
+                      ('ctor', 'bpp::StringTokenizer', 4, 'void (const std::string &, const std::string &, bool, bool)'): 'StringTokenizer__ctor_4'})
+CFG['defaults'].update({('Str__find', 1): '0', ('Str__rfind', 1): 'STR_NPOS'})
+CFG['types'] = dict(CFG['types']); CFG['types'].update({'vector<std::string>': 'Vec_Str', 'std::vector<std::string>': 'Vec_Str', 'std::vector<std::basic_string<char>>': 'Vec_Str', 'vector<std::basic_string<char>>': 'Vec_Str'})
 STRUCTS = list(_c16.STRUCTS)
-PRE_STRUCTS = _c16.PRE_STRUCTS
+PRE_STRUCTS = _c16.PRE_STRUCTS + 'VEC_DECL(Str, Vec_Str)\n'
 PRELUDE = _c16.PRELUDE
 STUB_CONTRACTS = set()
 # the same extracted functions as C16, used here with their real bodies only (no contracts)
 KEEP = ('TextTools__isDecimalNumber_c', 'TextTools__isDecimalNumber', 'TextTools__isDecimalInteger', 'TextTools__toInt', 'TextTools__toDouble',
         'StringTokenizer__ctor_4', 'StringTokenizer__ctor_0', 'NestedStringTokenizer__ctor_5', 'StringTokenizer__unparseRemainingTokens', 'StringTokenizer__numberOfRemainingTokens', 'StringTokenizer__hasMoreToken')
 FUNCS = [dict(cname=f['cname'], qname=f['qname'], sig=f.get('sig')) for f in _c16.FUNCS if f['cname'] in KEEP]
+FUNCS += [dict(cname='StringTokenizer__nextToken', qname='bpp::StringTokenizer::nextToken'),
+          dict(cname='ApplicationTools__matchingParameters_v', qname='bpp::ApplicationTools::matchingParameters', sig='(const std::string &, vector<std::string> &)')]
 
 GRAMMAR = r'''
 /* the strict decimal grammar, as a DFA over five character classes (D digit, '-', '+', dec, sci; anything else rejects)
@@ -62,7 +71,7 @@ def generate_jobs(unit, tier):
     return jobs
 
 LEMMAS = []
-REPLAY = {'re:^b_(number|integer)_grammar': dict(adapter='c17_grammar.cpp'), 're:^b_(tokenize|nested)_': dict(adapter='c17_tokens.cpp')}
+REPLAY = {'re:^b_(number|integer)_grammar': dict(adapter='c17_grammar.cpp'), 're:^b_(tokenize|nested|glob)_': dict(adapter='c17_tokens.cpp')}
 TRUSTED = ['std::string model of stubs/str.h (executable in these runs); fromString<T> unmodelled: the value clause of number conversion is not decided']
 ASSUMPTIONS = ['dec and sci are distinct characters that are neither digits nor signs']
 NOT_DECIDED = ['value returned by toDouble/toInt (iostream extraction), toString round trip, key-value procedures, argument substitution, variable resolution, tables, distribution descriptions (std::map, streams, files)']
@@ -158,4 +167,39 @@ def generate_jobs(unit, tier):
                              defs='#define LEN %d\n#define DLEN %d\n#define SOLID %d\n#define STR_BCAP %d\n#define VEC_BCAP %d\n' % (L, dl, solid, max(L, dl) + 1, L + 2),
                              bound='input length %d over {a,(,),",",";"}, brackets "(" and ")", %d delimiter byte(s) over {",",";"}, solid=%d' % (L, dl, solid),
                              doc='nested tokenising against a character-level reference: split exactly at the delimiters outside brackets; Unclosed block iff unbalanced'))
+    return jobs
+
+# ---- wildcard name matching agrees with glob semantics for '*' ------------------------------------------------------------
+H_GLOB = r"""
+char in_p[PLEN + 1]; char in_n[NLEN + 1];
+/* reference: '*' matches any (possibly empty) run of characters, every other character matches itself.  m[i][j]: pattern[i..) matches name[j..) */
+static _Bool glob(void) { _Bool m[PLEN + 1][NLEN + 1];
+  for (int j = NLEN; j >= 0; --j) m[PLEN][j] = (j == NLEN);
+  for (int i = PLEN - 1; i >= 0; --i) for (int j = NLEN; j >= 0; --j) {
+    if (in_p[i] == '*') m[i][j] = m[i + 1][j] || (j < NLEN && m[i][j + 1]);
+    else m[i][j] = (j < NLEN && in_p[i] == in_n[j] && m[i + 1][j + 1]); }
+  return m[0][0]; }
+void h(void) {
+  Str p, n; p.d = (char*)verif_new_array(STR_BCAP, 1); p.n = PLEN; n.d = (char*)verif_new_array(STR_BCAP, 1); n.n = NLEN;
+  for (int i = 0; i < PLEN; ++i) { in_p[i] = nondet_char(); __CPROVER_assume(in_p[i] == 'a' || in_p[i] == 'b' || in_p[i] == '*'); p.d[i] = in_p[i]; } p.d[PLEN] = 0;
+  for (int i = 0; i < NLEN; ++i) { in_n[i] = nondet_char(); __CPROVER_assume(in_n[i] == 'a' || in_n[i] == 'b'); n.d[i] = in_n[i]; } n.d[NLEN] = 0;
+  Vec_Str names; Vec_Str__ctor_0(&names); Vec_Str__push_back(&names, &n); verif_exc = 0;
+  Vec_Str r = ApplicationTools__matchingParameters_v(&p, &names);
+  __CPROVER_assert(verif_exc == 0, "wildcard matching does not raise");
+  __CPROVER_assert(r.n == (glob() ? 1u : 0u), "wildcard name matching agrees with glob semantics for '*'");
+  if (r.n == 1) { __CPROVER_assert(r.d[0].n == NLEN, "the matching name is returned unchanged"); for (int i = 0; i < NLEN; ++i) __CPROVER_assert(r.d[0].d[i] == in_n[i], "the matching name is returned unchanged"); }
+  __CPROVER_assert(0, "verif_canary reachable after call"); }
+"""
+_gen_nest = generate_jobs
+def generate_jobs(unit, tier):
+    jobs = _gen_nest(unit, tier)
+    bodies = [f['cname'] for f in FUNCS]
+    lmax = 6 if tier == 'thorough' else 5
+    for PL in range(0, lmax + 1):
+        for NL in range(0, lmax + 1):
+            cap = max(PL, NL, 1) + 1
+            jobs.append(dict(id='b_glob_p%d_n%d' % (PL, NL), kind='bounded', mode='bounded', entry='h', bodies=bodies, harness=H_GLOB, unwind=cap + 2, timeout=1200,
+                             defs='#define PLEN %d\n#define NLEN %d\n#define STR_BCAP %d\n#define VEC_BCAP %d\n' % (PL, NL, cap, cap + 1),
+                             bound='pattern of length %d over {a,b,*}, name of length %d over {a,b}' % (PL, NL),
+                             doc="ApplicationTools::matchingParameters(pattern, names) against a dynamic-programming glob matcher"))
     return jobs
